@@ -125,6 +125,7 @@ class Policy:
     drop_impl: List[str] = field(default_factory=list)
     drop_item: List[str] = field(default_factory=list)
     external: Dict[str, str] = field(default_factory=dict)
+    external_sha: Dict[str, str] = field(default_factory=dict)
     derive_spec: List[str] = field(default_factory=list)
     opaque_body: Dict[str, str] = field(default_factory=dict)
 
@@ -194,9 +195,11 @@ class ContractSet:
             elif w[0] == 'drop-item': self.policy.drop_item += w[1:]
             elif w[0] == 'derive-spec': self.policy.derive_spec += w[1:]
             elif w[0] == 'external':
-                m = re.match(r'^external\s+(\S+)\s*:\s*(.*)$', s)
+                m = re.match(r'^external\s+(\S+)\s*(?:sha256\s+(\w+)\s*)?:\s*(.*)$', s)
                 if not m: raise ContractError('%s: bad external line' % src)
-                self.policy.external[m.group(1)] = m.group(2)
+                self.policy.external[m.group(1)] = m.group(3)
+                if m.group(2):
+                    self.policy.external_sha[m.group(1)] = m.group(2)
             else:
                 raise ContractError('%s: bad policy line %r' % (src, s))
         raise ContractError('unterminated policy')
